@@ -60,9 +60,20 @@ def gen_cases(seed, tier):
             cases.append(PC.mk_case('default', s, False, 'exhaustive-dollars-spaces'))
     extra = ['\\text', '\\ensuremath', '\\mbox', '\\begin{equation}', '\\end{equation}', '\\begin{align*}', '\\end{align*}',
              '\\frac', '$$', '\\textbf']
+    b = _base_sig()
+    modal = ['\\' + n for n, sp in sorted(b.macros.items()) if sp['args'][0] == 'std' and any(a['delta'] for a in sp['args'][1])]
+    modal_envs = [n for n, sp in sorted(b.envs.items()) if sp['args'][0] == 'std' and sp['body_math'] and not sp['args'][1]]
     for _ in range(1500 if quick else 20000):
         s = docgen.soup(rnd, MATH_SYMS + extra, 2, 12)
         cases.append(PC.mk_case('default', s, False, 'soup'))
+    # every macro of the default context with a mode-changing argument, every math environment without arguments:
+    # well-formed uses inside and outside formulas
+    for m in modal:
+        for tmpl in ('$a%s{b $c$ d}e$', '%s{b $c$}', '\\[%s{x}\\]', '\\begin{equation}%s{t}\\end{equation}', '\\ensuremath{%s{u $v$}}'):
+            cases.append(PC.mk_case('default', tmpl % m, False, 'declared-modes'))
+    for e in modal_envs:
+        for tmpl in ('\\begin{%s}a\\text{b}\\end{%s}', 'x $y\\begin{%s}z\\end{%s}$', '\\textbf{\\begin{%s}w\\end{%s}}'):
+            cases.append(PC.mk_case('default', tmpl % (e, e), False, 'declared-modes'))
     cextra = ['\\mt', '\\mm', '\\mx', '\\my', '\\ma', '\\begin{em}', '\\end{em}', '\\begin{eb}', '\\end{eb}', '[', ']', '$$', '!!']
     for _ in range(1000 if quick else 12000):
         s = docgen.soup(rnd, MATH_SYMS + cextra, 2, 12)
@@ -201,8 +212,37 @@ def _delta_mode(d, mode):
     return mode
 
 
+_BASE = [None]
+
+
+def _base_sig():
+    import docast
+    if _BASE[0] is None:
+        _BASE[0] = docast.Sig(docgen.baseline_default_cx())
+    return _BASE[0]
+
+
+_USE_BASE = [False]
+
+
+def _recorded_modes(sp, mode):
+    if sp is None or sp['args'][0] != 'std':
+        return None
+    return [{0: mode, 1: (True, None), 2: (False, None)}[a['delta']] for a in sp['args'][1]]
+
+
 def _arg_modes(spec, mode):
     name = getattr(spec, 'macroname', None)
+    if _USE_BASE[0]:
+        # default context: what the arguments of a declared macro / environment mean is taken from the RECORDED
+        # declarations (baseline_walkerctx.json), not from the specification object the parse attached to the node
+        b = _base_sig()
+        ename = getattr(spec, 'environmentname', None)
+        rec = b.macros.get(name) if name is not None and ename is None else (b.envs.get(ename) if ename is not None else None)
+        if rec is not None:
+            r = _recorded_modes(rec, mode)
+            if r is not None:
+                return r
     if name in docgen.CHAINED_EFFECTS and _chained_db_spec(spec):
         return [{'T': (False, None), 'M': (True, None), '=': mode}[x] for x in docgen.CHAINED_EFFECTS[name]]
     return [_delta_mode(getattr(a, 'parsing_state_delta', None), mode)
@@ -249,6 +289,15 @@ def _check(n, mode, path, table=None):
     if k == 'G':
         return _check(n.nodelist, mode, path + ['body'], table)
     pa = getattr(n, 'nodeargd', None)
+    token_arg = bool(path) and isinstance(path[-1], str) and path[-1].startswith('arg')   # a macro standing AS an argument
+    if _USE_BASE[0] and k in ('M', 'E') and not token_arg:                                 # is one token: its own arguments are not read
+        b = _base_sig()
+        rec = b.macros.get(n.macroname) if k == 'M' else b.envs.get(n.environmentname)
+        if rec is not None and rec['args'][0] == 'std' and getattr(n, 'spec', None) is not None:
+            have = len(pa.argnlist) if pa is not None and pa.argnlist else 0
+            if have != len(rec['args'][1]):
+                return ('node-arguments-differ-from-recorded-declaration', {
+                    'node': treedump.dump(n)[:200], 'recorded_argument_slots': len(rec['args'][1]), 'observed': have})
     if pa is not None and pa.argnlist:
         ams = _arg_modes(n.spec, mode) if getattr(n, 'spec', None) is not None else []
         for j, a in enumerate(pa.argnlist):
@@ -259,6 +308,8 @@ def _check(n, mode, path, table=None):
     if k == 'E':
         if getattr(n.spec, 'environmentname', None) in docgen.CHAINED_EFFECTS and _chained_db_spec(n.spec):
             bm = (True, None) if docgen.CHAINED_EFFECTS[n.spec.environmentname] == 'M' else mode
+        elif _USE_BASE[0] and n.environmentname in _base_sig().envs and _base_sig().envs[n.environmentname]['args'][0] == 'std':
+            bm = (True, None) if _base_sig().envs[n.environmentname]['body_math'] else mode
         else:
             bm = (True, None) if getattr(n.spec, 'is_math_mode', None) else \
                 _delta_mode(getattr(n.spec, 'body_parsing_state_delta', None), mode)
@@ -341,6 +392,7 @@ def oracle(c):
         if len(top) != 1 or treedump.kind(top[0]) != '$' or (top[0].pos, top[0].pos_end) != (0, len(d['s'])):
             return ('formula-does-not-end-where-it-was-closed', {'tree': treedump.dump(r[1])[:400]})
         return _check(r[1], (False, None), [], None)
+    _USE_BASE[0] = d['ctx'] in ('default', 'defs')
     r = PC.real_parse(d)
     if r[0] != 'ok' or r[1] is None:
         s = d['s']
